@@ -114,6 +114,27 @@ def load_known():
 
 
 
+WITNESS_PROPS = {'C08', 'C10', 'C12'}
+
+
+def run_witnesses():
+    """engine C: compile-fail doc-tests of the witness crate against /repo (nightly honours the error codes)"""
+    w = os.path.join(HERE, 'witness')
+    try:
+        shutil.copy('/repo/Cargo.lock', os.path.join(w, 'Cargo.lock'))
+    except OSError:
+        pass
+    e = env_offline()
+    e['CARGO_TARGET_DIR'] = os.path.join(BUILD, 'witness-target')
+    r = subprocess.run(['cargo', '+nightly', 'test', '--doc', '--offline'], cwd=w, env=e, stdout=subprocess.PIPE, stderr=subprocess.STDOUT, text=True)
+    import re
+    m = re.search(r'test result: (\w+)\. (\d+) passed; (\d+) failed', r.stdout)
+    if not m:
+        return {'witnesses_passed': 0, 'witnesses_failed': -1, 'witness_log': r.stdout[-1500:]}
+    failed = [l for l in r.stdout.splitlines() if l.startswith('test ') and l.rstrip().endswith('FAILED')]
+    return {'witnesses_passed': int(m.group(2)), 'witnesses_failed': int(m.group(3)), 'witness_failures': failed}
+
+
 PROPS = ['C02', 'C03', 'C04', 'C05', 'C06', 'C07', 'C08', 'C09', 'C10', 'C11', 'C12', 'C13', 'C14', 'C15', 'C16',
          'C17', 'C18', 'C19', 'C20']
 
@@ -173,6 +194,12 @@ def run_property(prop, repo, tier, seed, facts_path=None, explain=False, write_e
         for f in extra.get('failures', []):
             fresh.append({'property': prop, 'rule': 'SELFTEST', 'anchor': f['patch'], 'what': f['what'], 'site': None,
                           'verdict': 'violation', 'detail': f.get('detail'), 'key': '%s|SELFTEST|%s' % (prop, f['patch'])})
+    if tier == 'thorough' and selftest and prop in WITNESS_PROPS and repo == '/repo':
+        w = run_witnesses()
+        extra.update({k: v for k, v in w.items() if k != 'witness_log'})
+        if w.get('witnesses_failed', 0) != 0 or w.get('witnesses_passed', 0) < 13:
+            fresh.append({'property': prop, 'rule': 'WITNESS', 'anchor': 'witness/src/lib.rs', 'what': 'a compile-fail witness of the closed-world assumption no longer holds (or the witness crate does not build)',
+                          'site': None, 'verdict': 'violation', 'detail': str(w.get('witness_failures') or w.get('witness_log')), 'key': '%s|WITNESS|closed-world' % prop})
     vdir = os.path.join(HERE, 'evidence', 'violations')
     if fresh:
         os.makedirs(vdir, exist_ok=True)
